@@ -188,8 +188,12 @@ type RealRun struct {
 	Events  []*vm.VerifStep
 	NEvents int
 	Calls   []Call
-	last    *vm.VerifStep
-	lastOp  *vm.VerifStep // last announced instruction
+	// Cut: the run was stopped by the harness after refvm.MaxSteps hook events (vm.Verify is not
+	// bounded by its gas limit: a failing CHECKPREDICATE child can hand gas back).  A cut run has
+	// no verdict: the panic that stops it is recovered by Verify as ErrUnexpected.
+	Cut    bool
+	last   *vm.VerifStep
+	lastOp *vm.VerifStep // last announced instruction
 
 	// The VM keeps one package-level byte slice {01} that BoolBytes(true) hands
 	// out to every caller.  TrueConst* record a run that changed it: noticed at
@@ -267,6 +271,8 @@ func Run(run *RealRun, ctx *vm.Context, gasLimit int64, keep int, onStep func(*v
 	run.Class = Classify(run.Err)
 }
 
+type cutSentinel struct{}
+
 // Observe installs the step hook around fn (which runs the VM, directly or
 // through transaction validation) and records the events in run.
 func Observe(run *RealRun, keep int, onStep func(*vm.VerifStep), fn func()) {
@@ -277,6 +283,10 @@ func Observe(run *RealRun, keep int, onStep func(*vm.VerifStep), fn func()) {
 			run.lastOp = s
 		}
 		run.NEvents++
+		if run.NEvents > refvm.MaxSteps+16 {
+			run.Cut = true
+			panic(cutSentinel{})
+		}
 		if len(run.Events) < keep {
 			run.Events = append(run.Events, s)
 		}
@@ -285,7 +295,17 @@ func Observe(run *RealRun, keep int, onStep func(*vm.VerifStep), fn func()) {
 		}
 	}
 	defer func() { vm.VerifStepHook = nil }()
-	fn()
+	func() {
+		defer func() {
+			// Verify recovers the sentinel itself; this is for callers that run the VM some other way
+			if r := recover(); r != nil {
+				if _, ok := r.(cutSentinel); !ok {
+					panic(r)
+				}
+			}
+		}()
+		fn()
+	}()
 	run.checkTrueConst()
 	restoreTrueConst()
 }
